@@ -10,10 +10,12 @@ import (
 	"github.com/bool64/cache"
 )
 
-const c11Rule = "stateful on a fake clock with the REAL janitor goroutine: backend x TimeToLive {finite, Unlimited} x DeleteExpiredAfter d x job interval i x an eviction limit (heap / sys / count) that is configured but never exceeded; " +
-	"3-25 ops: writes with no/short/long/negative explicit TTL, deletes, ExpireAll (finite TimeToLive only), clock jumps landing 1ns before / exactly at / 1ns after janitor ticks t0+k*i or k ticks ahead; " +
-	"after every jump the model removes exactly {E!=0 and E < tick-d} per tick and Len/Walk/Read of every key are compared; " +
-	"non-trivial = some tick removed a long-expired entry while a never-expiring or recently-expired entry was present and had to survive"
+const c11Rule = "stateful on a fake clock, two cycle drivers: (a) the REAL janitor goroutine (its cycles are DeleteExpiredJobInterval i apart, their phase is not assumed) and (b) cycles invoked one by one through the VerifCleanup hook at generated instants (janitor interval out of reach); " +
+	"backend x TimeToLive {finite, Unlimited} x DeleteExpiredAfter d (explicit or default 24h) x an eviction limit (heap / sys / count) that is configured but not exceeded when a cycle runs; " +
+	"3-25 ops: writes with no/short/long/negative explicit TTL, deletes, ExpireAll (finite TimeToLive only), clock jumps around i and d; " +
+	"oracle (b): a cycle at instant t removes exactly {E!=0 and E < t-d}, Len/Walk/Read of every key are compared; with a small CountSoftLimit the count exceeds the limit between cycles (seen by the items-count reporter) but not at a cycle: nothing may be evicted; " +
+	"oracle (a): an entry is missing only if E!=0 and E < now-d; an entry with E < now-i-d that was written more than i ago is gone once the cache is older than i (some cycle lies in every window of length i); in between either; " +
+	"non-trivial = a cycle / jump removed a long-expired entry while a never-expiring or recently-expired entry was present and had to survive"
 
 // TestC11Janitor: the janitor deletes only entries expired longer than DeleteExpiredAfter.
 func TestC11Janitor(t *testing.T) {
@@ -26,6 +28,7 @@ func propJanitor(c *Case) {
 	mult := []float64{3, 0.5, 1, 10, 100}[c.Pick("dmult", 5)]
 	dea := time.Duration(float64(interval)*mult) + time.Duration(c.Int("dns", 0, 2))
 	cfgDea := dea
+	hook := c.Weighted("cycle-driver", 1, 1) == 1 // cycles invoked through the hook instead of the real janitor
 
 	// DeleteExpiredAfter left unset means the documented default of 24h (also for UnlimitedTTL caches)
 	if interval >= time.Minute && c.Weighted("DeleteExpiredAfter-default", 4, 1) == 1 {
@@ -35,7 +38,7 @@ func propJanitor(c *Case) {
 
 	ttlMenu := []time.Duration{
 		time.Nanosecond, interval / 2, interval, 3 * interval, dea, dea + interval, 100 * interval,
-		-time.Nanosecond, -dea, -dea - interval,
+		-time.Nanosecond, -dea, -dea - interval, -dea - 3*interval,
 	}
 
 	var cfgTTL time.Duration
@@ -52,18 +55,22 @@ func propJanitor(c *Case) {
 		jit = 0.2
 	}
 
-	// eviction limits that are configured but never exceeded must not remove anything
-	var heapLimit, sysLimit, countLimit uint64
-
+	// eviction limits that are configured but not exceeded must not remove anything
 	var (
-		stats          cache.StatsTracker
-		reportInterval time.Duration
+		heapLimit, sysLimit, countLimit uint64
+		stats                           cache.StatsTracker
+		reportInterval                  time.Duration
 	)
 
-	switch c.Weighted("unreached-limit", 4, 1, 1, 1, 2) {
+	wBetween := 0
+	if hook {
+		wBetween = 3
+	}
+
+	switch c.Weighted("unreached-limit", 4, 1, 1, 1, wBetween) {
 	case 4:
 		// a count limit that is exceeded between cleanup cycles (and seen exceeded by the items-count
-		// reporter of a cache with a stats tracker) but never at a cleanup cycle
+		// reporter of a cache with a stats tracker) but never when a cycle runs
 		countLimit = uint64(c.Int("countLimit", 1, 4))
 		stats = newCountTracker()
 		reportInterval = interval / 4
@@ -80,66 +87,138 @@ func propJanitor(c *Case) {
 	}
 
 	c.Class("backend=" + kind)
-	c.Tracef("backend=%s TimeToLive=%v DeleteExpiredAfter=%v DeleteExpiredJobInterval=%v jitter=%v limits heap=%d sys=%d count=%d", kind, cfgTTL, dea, interval, jit, heapLimit, sysLimit, countLimit)
+
+	if hook {
+		c.Class("cycles=hook")
+	} else {
+		c.Class("cycles=real-janitor")
+	}
+
+	c.Tracef("backend=%s TimeToLive=%v DeleteExpiredAfter=%v DeleteExpiredJobInterval=%v (hook-driven cycles=%v) jitter=%v limits heap=%d sys=%d count=%d",
+		kind, cfgTTL, dea, interval, hook, jit, heapLimit, sysLimit, countLimit)
 
 	c.Bubble(func() {
 		c.SeedJitter()
 
 		t0 := time.Now()
+		jobInterval := interval
+
+		if hook {
+			jobInterval = 2 * farFuture
+		}
+
 		be := newCaseBackend(c, kind, cache.Config{
 			TimeToLive: cfgTTL, ExpirationJitter: jit,
-			DeleteExpiredJobInterval: interval, DeleteExpiredAfter: cfgDea,
+			DeleteExpiredJobInterval: jobInterval, DeleteExpiredAfter: cfgDea,
 			HeapInUseSoftLimit: heapLimit, SysMemSoftLimit: sysLimit, CountSoftLimit: countLimit,
 			Stats: stats, ItemsCountReportInterval: reportInterval,
 			EvictFraction: 0.5, // a spurious eviction must be visible with a handful of entries
 		})
 		d := newMapDriver(c, be, cfgTTL, jit)
-		synctest.Wait() // janitor armed its first timer at t0
+		synctest.Wait() // janitor armed its first timer
 
-		ticksDone := int64(0)
-		nTicks, nRemoved := 0, 0
+		writtenAt := map[string]int64{}
+		nCycles, nRemoved := 0, 0
 
-		applyTicks := func() {
-			synctest.Wait() // let the janitor finish every tick that is due
-			now := time.Now()
+		spared := func(now int64) int {
+			n := 0
 
-			for {
-				tick := t0.Add(time.Duration(ticksDone+1) * interval)
-				if tick.After(now) {
-					break
+			for _, e := range d.ref.m {
+				if e.e == 0 || (e.e < now && e.e >= now-int64(dea)) {
+					n++
 				}
+			}
 
-				ticksDone++
-				nTicks++
-				boundary := tick.Add(-dea).UnixNano()
+			return n
+		}
 
-				removed, protected := 0, 0
+		// cycle (hook driver): one cleanup cycle right now; the model removes exactly {E != 0 && E < now-d}.
+		cycle := func() {
+			// no eviction limit may be exceeded when a cycle runs (the cycle's own deletions come first)
+			if stats != nil {
+				for _, k := range baseKeys {
+					if uint64(len(d.ref.m)) <= countLimit {
+						break
+					}
 
-				for k, e := range d.ref.m {
-					if e.e != 0 && e.e < boundary {
-						delete(d.ref.m, k)
-						removed++
-					} else if e.e == 0 || e.e < tick.UnixNano() {
-						protected++
+					if _, ok := d.ref.m[string(k)]; ok {
+						d.del(k)
 					}
 				}
+			}
 
-				nRemoved += removed
+			now := time.Now().UnixNano()
+			be.Cleanup()
+			nCycles++
 
-				if removed > 0 && protected > 0 {
-					c.NonTrivial()
-					c.Class("tick-removes-and-spares")
+			removed := 0
+
+			for k, e := range d.ref.m {
+				if e.e != 0 && e.e < now-int64(dea) {
+					delete(d.ref.m, k)
+					removed++
 				}
+			}
 
-				if removed > 0 {
-					c.Tracef("tick %d at %d: model removes %d long-expired entries, %d never-expiring/recently-expired survive",
-						ticksDone, tick.UnixNano(), removed, protected)
+			nRemoved += removed
+
+			if removed > 0 && spared(now) > 0 {
+				c.NonTrivial()
+				c.Class("cycle-removes-and-spares")
+			}
+
+			c.Tracef("cleanup cycle at %d: model removes %d long-expired entries", now, removed)
+		}
+
+		// reconcile (real janitor): cycles ran at unknown instants <= now, i apart.
+		reconcile := func() {
+			synctest.Wait() // let the janitor finish every cycle that is due
+			now := time.Now().UnixNano()
+
+			present := map[string]bool{}
+			_, _ = be.Walk(func(k []byte, _ interface{}, _ time.Time) error {
+				present[string(k)] = true
+
+				return nil
+			})
+
+			removed := 0
+
+			for k, e := range d.ref.m {
+				removable := e.e != 0 && e.e < now-int64(dea)
+				mustGo := removable && e.e < now-int64(interval)-int64(dea) && writtenAt[k] <= now-int64(interval) && now >= t0.UnixNano()+int64(interval)
+
+				switch {
+				case present[k] && mustGo:
+					c.Failf("long-expired-kept", "key %s expired %v ago (DeleteExpiredAfter %v) and was written %v ago, cleanup cycles are %v apart: it must have been removed",
+						keyName([]byte(k)), time.Duration(now-e.e), dea, time.Duration(now-writtenAt[k]), interval)
+				case !present[k] && removable:
+					delete(d.ref.m, k)
+					removed++
 				}
+				// (!present && !removable is reported by compareAll as walk-missing)
+			}
+
+			nRemoved += removed
+
+			if removed > 0 && spared(now) > 0 {
+				c.NonTrivial()
+				c.Class("cycle-removes-and-spares")
+			}
+
+			if removed > 0 {
+				c.Tracef("by %d the janitor removed %d long-expired entries", now, removed)
+			}
+		}
+
+		sync := func() {
+			if !hook {
+				reconcile()
 			}
 		}
 
 		checkAll := func() {
-			applyTicks()
+			sync()
 			d.compareAll()
 
 			for _, k := range baseKeys {
@@ -156,9 +235,17 @@ func propJanitor(c *Case) {
 				wExpireAll = 1 // on a scan-exempt Unlimited cache the effect of ExpireAll on cleanup is not specified
 			}
 
-			switch c.Weighted("op", 5, 5, 1, 1, wExpireAll) {
+			wCycle := 0
+			if hook {
+				wCycle = 4
+			}
+
+			switch c.Weighted("op", 5, 5, 1, 1, wExpireAll, wCycle) {
+			case 5:
+				cycle()
+				checkAll()
 			case 4:
-				applyTicks()
+				sync()
 				d.expireAll()
 				d.compareAll() // settles which instant already expired entries carry now
 				c.Class("expireall")
@@ -170,8 +257,9 @@ func propJanitor(c *Case) {
 					ttl = ttlMenu[c.Pick("ttl", len(ttlMenu))]
 				}
 
-				applyTicks()
+				sync()
 				d.write(k, d.token(k), ttl, false)
+				writtenAt[string(k)] = time.Now().UnixNano()
 			case 1:
 				if jumps >= 8 {
 					break
@@ -179,17 +267,19 @@ func propJanitor(c *Case) {
 
 				jumps++
 
-				next := t0.Add(time.Duration(ticksDone+1) * interval)
-				until := time.Until(next)
+				// the instant where the next cycle of a janitor started at t0 would be (for the hook
+				// driver just a convenient grid)
+				elapsed := time.Since(t0)
+				until := interval - elapsed%interval
 
 				var dur time.Duration
 
-				switch c.Weighted("jump", 2, 3, 2, 2, 1) {
+				switch c.Weighted("jump", 2, 3, 2, 2, 1, 1) {
 				case 0:
 					dur = until - 1
 				case 1:
 					dur = until
-					c.Class("jump-to-tick-exactly")
+					c.Class("jump-to-grid-exactly")
 				case 2:
 					dur = until + 1
 				case 3:
@@ -197,42 +287,42 @@ func propJanitor(c *Case) {
 				case 4:
 					dur = until + dea + time.Duration(c.Int("ns", 0, 2)) - 1
 					c.Class("jump-past-delete-after")
+				case 5:
+					dur = dea + interval + time.Duration(c.Int("ns", 0, 2)) - 1
 				}
 
 				if dur <= 0 {
 					dur = 1
 				}
 
-				// no eviction limit may be exceeded when a cleanup cycle runs (deletions of the cycle come first)
-				if stats != nil && dur >= until {
-					for _, k := range baseKeys {
-						if uint64(len(d.ref.m)) <= countLimit {
-							break
-						}
-
-						if _, ok := d.ref.m[string(k)]; ok {
-							d.del(k)
-						}
-					}
-				} else if stats != nil && uint64(len(d.ref.m)) > countLimit {
+				if stats != nil && uint64(len(d.ref.m)) > countLimit {
 					c.Class("count-above-limit-while-reporter-ticks")
 				}
 
 				time.Sleep(dur)
 				c.Tracef("Advance(%v) -> now=%d", dur, time.Now().UnixNano())
+
+				if hook && c.Weighted("cycle-after-jump", 1, 2) == 1 {
+					cycle()
+				}
+
 				checkAll()
 			case 2:
-				applyTicks()
+				sync()
 				d.del(baseKeys[c.Pick("key", len(baseKeys))])
 			case 3:
 				checkAll()
 			}
 		}
 
+		if hook {
+			cycle()
+		}
+
 		checkAll()
 
-		if nTicks > 0 {
-			c.Class("ticks>0")
+		if nCycles > 0 {
+			c.Class("cycles>0")
 		}
 
 		if nRemoved > 0 {
